@@ -40,11 +40,20 @@ def scratch():
     return _scratch
 
 
-def _collect_apps(terms, names):
-    """all applications of the named uninterpreted functions occurring in terms"""
+_APPS_CACHE = {}
+
+
+def _collect_apps_one(t0, names):
+    """applications of the named uninterpreted functions inside ONE top-level term; cached per term (conjuncts of a path
+    condition are shared by all obligations of the path and by the paths that extend it).  The term is kept alive by the cache:
+    z3 recycles AST ids of collected terms."""
+    key = (t0.get_id(), names if isinstance(names, frozenset) else frozenset(names))
+    hit = _APPS_CACHE.get(key)
+    if hit is not None:
+        return hit[1]
     seen = set()
     out = []
-    stack = list(terms)
+    stack = [t0]
     while stack:
         t = stack.pop()
         i = t.get_id()
@@ -59,11 +68,26 @@ def _collect_apps(terms, names):
                     (t.decl().name() in names or t.decl().name().startswith('H_')):
                 out.append(t)
             stack.extend(t.children())
+    _APPS_CACHE[key] = (t0, out)
     return out
 
 
-GROUND_UFS = {'int_to_le', 'int_to_be', 'int_from_le', 'int_from_be', 'hexlify', 'unhexlify', 'seq_rev',
-              'utf8_encode', 'utf8_decode', 'utf8_valid'}
+def _collect_apps(terms, names):
+    """all applications of the named uninterpreted functions occurring in terms"""
+    names = frozenset(names)
+    seen = set()
+    out = []
+    for t0 in terms:
+        for a in _collect_apps_one(t0, names):
+            i = a.get_id()
+            if i not in seen:
+                seen.add(i)
+                out.append(a)
+    return out
+
+
+GROUND_UFS = frozenset({'int_to_le', 'int_to_be', 'int_from_le', 'int_from_be', 'hexlify', 'unhexlify', 'seq_rev',
+                        'utf8_encode', 'utf8_decode', 'utf8_valid'})
 
 
 def ground_axioms(terms):
@@ -205,21 +229,30 @@ def for_cvc5(text):
 
 
 def run_solver(name, path, timeout):
-    cmd = ['timeout', '-k', '1', str(timeout)] + SOLVERS[name] + [path]
+    # three layers against runaway solvers: the solver's own limit, coreutils timeout (TERM, then KILL), and killing the whole
+    # process group if even that does not return (a z3 stuck allocating memory once survived for an hour)
+    own = ['-T:%d' % (timeout + 1), '-memory:6000'] if name.startswith('z3') else ['--tlimit=%d' % ((timeout + 1) * 1000)]
+    cmd = ['timeout', '-k', '1', str(timeout)] + SOLVERS[name] + own + [path]
     t0 = time.time()
+    proc = subprocess.Popen(cmd, stdout=subprocess.PIPE, stderr=subprocess.PIPE, text=True, start_new_session=True)
     try:
-        p = subprocess.run(cmd, capture_output=True, text=True, timeout=timeout + 5)
-        out = p.stdout.strip()
-        rc = p.returncode
+        out, err = proc.communicate(timeout=timeout + 5)
+        out = out.strip()
+        rc = proc.returncode
     except subprocess.TimeoutExpired:
+        try:
+            os.killpg(proc.pid, 9)
+        except OSError:
+            pass
+        proc.communicate()
         return 'timeout', time.time() - t0, ''
     dt = time.time() - t0
     first = out.split('\n', 1)[0].strip() if out else ''
     if first in ('sat', 'unsat', 'unknown'):
         return first, dt, out
-    if rc == 124 or rc == 137:
+    if rc == 124 or rc == 137 or first == 'timeout' or 'interrupted by timeout' in out or 'cvc5 interrupted' in (out + err):
         return 'timeout', dt, out
-    return 'error', dt, (out + '\n' + p.stderr)[:2000]
+    return 'error', dt, (out + '\n' + err)[:2000]
 
 
 class Result:
